@@ -16,6 +16,8 @@
 package extractsev
 
 import (
+	"bytes"
+	"encoding/binary"
 	"encoding/hex"
 	"errors"
 	"fmt"
@@ -61,6 +63,26 @@ func FromAttestation(at *spb.Attestation) ([]byte, error) {
 	return nil, ErrNotInExtras
 }
 
+// CheckCertTableBounds returns an error if an entry of the SEV-SNP certificate table header points
+// outside the table. go-sev-guest's parser adds offset and length in 32 bits, so an entry with a
+// huge length passes its range check and makes it allocate the declared length.
+func CheckCertTableBounds(table []byte) error {
+	const guidSize, entrySize = 16, 24
+	for off := 0; off+entrySize <= len(table); off += entrySize {
+		entry := table[off : off+entrySize]
+		offset := binary.LittleEndian.Uint32(entry[guidSize : guidSize+4])
+		length := binary.LittleEndian.Uint32(entry[guidSize+4 : entrySize])
+		if offset == 0 && length == 0 && bytes.Equal(entry[:guidSize], make([]byte, guidSize)) {
+			return nil
+		}
+		if uint64(offset)+uint64(length) > uint64(len(table)) {
+			return fmt.Errorf("cert table entry at %d has byte range [%d, +%d) outside the %d-byte table",
+				off, offset, length, len(table))
+		}
+	}
+	return nil
+}
+
 // FromCertTable returns the contents of the certificate table entry for the GCE UEFI endorsement.
 func FromCertTable(table []byte) (blob []byte, err error) {
 	// abi.CertTable.Unmarshal can panic on a malformed table header; report that as an error.
@@ -69,6 +91,9 @@ func FromCertTable(table []byte) (blob []byte, err error) {
 			blob, err = nil, fmt.Errorf("malformed certificate table: %v", r)
 		}
 	}()
+	if err := CheckCertTableBounds(table); err != nil {
+		return nil, err
+	}
 	t := new(abi.CertTable)
 	if err := t.Unmarshal(table); err != nil {
 		return nil, err
